@@ -266,6 +266,8 @@ func checkC08(c *Ctx) {
 	}
 
 	checkC08WhereKept(c)
+	checkC08GroupSubject(c)
+	checkC08ClauseProbe(c)
 
 	// ---- C08.unscoped-writers ----
 	ru := c.Rule("C08.unscoped-writers", "WHO-WRITES(Statement.Unscoped): true only in (*DB).Unscoped; otherwise copies of another statement's Unscoped; library Unscoped() calls guarded; nested sessions propagate", 7)
